@@ -16,12 +16,14 @@ def leVal : List Nat → Nat
   | [] => 0
   | b :: bs => b + 256 * leVal bs
 
+/-- `cnt` consecutive `n`-byte little-endian values -/
+def leWordsN (n : Nat) : Nat → List Nat → List Nat
+  | 0, _ => []
+  | cnt+1, bs => leVal (bs.take n) :: leWordsN n cnt (bs.drop n)
+
 /-- split a byte list into `n`-byte little-endian values (a trailing partial group is dropped;
-    callers always pass a multiple of `n` bytes) -/
-def leWords (n : Nat) (bs : List Nat) : List Nat :=
-  if h : n = 0 ∨ bs.length < n then [] else leVal (bs.take n) :: leWords n (bs.drop n)
-termination_by bs.length
-decreasing_by simp [List.length_drop]; omega
+    callers always pass a multiple of `n` bytes): `bytemuck::cast_slice_mut` + `from_le` -/
+def leWords (n : Nat) (bs : List Nat) : List Nat := leWordsN n (bs.length / n) bs
 
 namespace Bitmap
 
@@ -60,11 +62,44 @@ inductive DecErr where
   | panic          -- a `debug_assertions` validation inside the *unchecked* constructors fired
 deriving Repr, BEq, DecidableEq
 
-/-- `read_exact(n)` on an in-memory reader -/
-def readN (n : Nat) (bs : List Nat) : Except DecErr (List Nat × List Nat) :=
+/-! ## Parsers over an abstract reader state
+
+The decoders are written once, over an abstract reader state `σ` and a `read_exact` function
+`R : Nat → Parser σ (List Nat)`.  Instances: the in-memory slice reader (`readN`, state = unread bytes),
+the scheduled reader of `IO.lean` (state = unread bytes + read schedule) and the seekable cursor of
+`SerOps.lean`. -/
+
+/-- state-passing computation that may fail: `io::Result<α>` over a `&mut R` -/
+def Parser (σ α : Type) : Type := σ → Except DecErr (α × σ)
+
+namespace Parser
+variable {σ α β : Type}
+@[inline] protected def pure (a : α) : Parser σ α := fun s => .ok (a, s)
+@[inline] protected def bind (p : Parser σ α) (f : α → Parser σ β) : Parser σ β := fun s =>
+  match p s with
+  | .ok (a, s') => f a s'
+  | .error e => .error e
+/-- `return Err(e)` / `?` on an error -/
+@[inline] def fail (e : DecErr) : Parser σ α := fun _ => .error e
+instance : Monad (Parser σ) where
+  pure := Parser.pure
+  bind := Parser.bind
+/-- lift a pure `Result` (`?` on a value that is not read from the stream) -/
+@[inline] def ofExcept : Except DecErr α → Parser σ α
+  | .ok a => Parser.pure a
+  | .error e => fail e
+/-- `Option` whose `none` is a panic (`unwrap()` in a debug validation) or an error -/
+@[inline] def ofOption (e : DecErr) : Option α → Parser σ α
+  | some a => Parser.pure a
+  | none => fail e
+end Parser
+
+/-- `read_exact(n)` on an in-memory reader (`&[u8]`): the state is the unread rest -/
+def readN (n : Nat) : Parser (List Nat) (List Nat) := fun bs =>
   if bs.length < n then .error .eof else .ok (bs.take n, bs.drop n)
 
-/-- replay the runs `(s, len)` through `Store::insert_range(s ..= s+len)` -/
+/-- replay the runs `(s, len)` through `Store::insert_range(s ..= s+len)`;
+    serialization.rs:241-245 (`checked_add` failing = `InvalidData`) -/
 def replayRuns : Store → List (Nat × Nat) → Except DecErr Store
   | st, [] => .ok st
   | st, (s, len) :: rs =>
@@ -75,114 +110,119 @@ def pairs : List Nat → List (Nat × Nat)
   | a :: b :: l => (a, b) :: pairs l
   | _ => []
 
-/-- one container of the stream; `isRun` from the run bitmap.  Returns the store and the rest. -/
-def decodeStore (chk dbg : Bool) (card : Nat) (isRun : Bool) (bs : List Nat) :
-    Except DecErr (Store × List Nat) :=
-  if isRun then
-    match readN 2 bs with
-    | .error e => .error e
-    | .ok (rb, bs) =>
-      let runs := leVal rb
-      match readN (runs * 4) bs with
-      | .error e => .error e
-      | .ok (ib, bs) =>
-        let intervals := pairs (leWords 2 ib)
-        let cap := (intervals.map (·.2)).foldl (· + ·) 0
-        match replayRuns (Store.withCapacity cap) intervals with
-        | .error e => .error e
-        | .ok st => .ok ((Container.ensureCorrectStore { key := 0, store := st }).store, bs)
-  else if card ≤ ARRAY_LIMIT then
-    match readN (card * 2) bs with
-    | .error e => .error e
-    | .ok (vb, bs) =>
-      let values := leWords 2 vb
-      if chk then
-        if Arr.isStrictlySorted values then .ok (.array values, bs) else .error .invalidData
-      else match Arr.fromVecUnchecked dbg values with
-        | some v => .ok (.array v, bs)
-        | none => .error .panic
-  else
-    match readN 8192 bs with
-    | .error e => .error e
-    | .ok (wb, bs) =>
-      let words := leWords 8 wb
-      if chk then
-        match BStore.tryFrom card words with
-        | some b => .ok (.bitmap b, bs)
-        | none => .error .invalidData
-      else match BStore.fromUnchecked dbg card words with
-        | some b => .ok (.bitmap b, bs)
-        | none => .error .panic
+/-- serialization.rs:231-246: a run chunk — `runs`, the intervals, `Store::with_capacity(Σ len)`, replay.
+    (No `ensure_correct_store` here: the two callers differ in what they do next.) -/
+def decodeRunStore {σ : Type} (R : Nat → Parser σ (List Nat)) : Parser σ Store := do
+  let rb ← R 2
+  let runs := leVal rb
+  let ib ← R (runs * 4)
+  let intervals := pairs (leWords 2 ib)
+  let cap := (intervals.map (·.2)).foldl (· + ·) 0
+  Parser.ofExcept (replayRuns (Store.withCapacity cap) intervals)
 
-/-- the `for i in 0..size` loop; `descr` is the remaining description bytes, `i` the container index -/
-def decodeContainers (chk dbg : Bool) (runBitmap : Option (List Nat)) :
-    List (Nat × Nat) → Nat → List Nat → Except DecErr (List Container × List Nat)
-  | [], _, bs => .ok ([], bs)
-  | (key, cardM1) :: ds, i, bs =>
-    let isRun := match runBitmap with
-      | some bm => (bm.getD (i / 8) 0) &&& (1 <<< (i % 8)) != 0
-      | none => false
-    match decodeStore chk dbg (cardM1 + 1) isRun bs with
-    | .error e => .error e
-    | .ok (st, bs) =>
-      match decodeContainers chk dbg runBitmap ds (i + 1) bs with
-      | .error e => .error e
-      | .ok (cs, bs) => .ok ({ key, store := st } :: cs, bs)
+/-- serialization.rs:247-252: an array chunk of `card ≤ 4096` values through the closure `a` -/
+def decodeArrayStore {σ : Type} (R : Nat → Parser σ (List Nat)) (chk dbg : Bool) (card : Nat) :
+    Parser σ Store := do
+  let vb ← R (card * 2)
+  let values := leWords 2 vb
+  if chk then
+    -- `ArrayStore::try_from`
+    if Arr.isStrictlySorted values then pure (.array values) else Parser.fail .invalidData
+  else
+    -- `ArrayStore::from_vec_unchecked` (validates and unwraps under debug assertions)
+    Parser.ofOption .panic ((Arr.fromVecUnchecked dbg values).map .array)
+
+/-- serialization.rs:253-259: a bitset chunk through the closure `b` -/
+def decodeBitmapStore {σ : Type} (R : Nat → Parser σ (List Nat)) (chk dbg : Bool) (card : Nat) :
+    Parser σ Store := do
+  let wb ← R 8192
+  let words := leWords 8 wb
+  if chk then
+    -- `BitmapStore::try_from`
+    Parser.ofOption .invalidData ((BStore.tryFrom card words).map .bitmap)
+  else
+    -- `BitmapStore::from_unchecked`
+    Parser.ofOption .panic ((BStore.fromUnchecked dbg card words).map .bitmap)
+
+/-- serialization.rs:230-266: one container of the stream; `isRun` from the run bitmap. -/
+def decodeStore {σ : Type} (R : Nat → Parser σ (List Nat)) (chk dbg : Bool) (card : Nat) (isRun : Bool) :
+    Parser σ Store :=
+  if isRun then do
+    let st ← decodeRunStore R
+    -- serialization.rs:263-266 (fix 63cad7f): `container.ensure_correct_store()` for run chunks only
+    pure (Container.ensureCorrectStore { key := 0, store := st }).store
+  else if card ≤ ARRAY_LIMIT then decodeArrayStore R chk dbg card
+  else decodeBitmapStore R chk dbg card
+
+/-- serialization.rs:227-228 `bm[i / 8] & (1 << (i % 8)) != 0` -/
+def isRunAt (runBitmap : Option (List Nat)) (i : Nat) : Bool :=
+  match runBitmap with
+  | some bm => (bm.getD (i / 8) 0) &&& (1 <<< (i % 8)) != 0
+  | none => false
+
+/-- serialization.rs:222-268, the `for i in 0..size` loop; the list is the remaining descriptions
+    `(key, cardinality - 1)`, `i` the container index -/
+def decodeContainers {σ : Type} (R : Nat → Parser σ (List Nat)) (chk dbg : Bool)
+    (runBitmap : Option (List Nat)) : List (Nat × Nat) → Nat → Parser σ (List Container)
+  | [], _ => pure []
+  | (key, cardM1) :: ds, i => do
+    let st ← decodeStore R chk dbg (cardM1 + 1) (isRunAt runBitmap i)
+    let cs ← decodeContainers R chk dbg runBitmap ds (i + 1)
+    pure ({ key, store := st } :: cs)
 
 def keysStrictlyAscending : List Container → Bool
   | a :: b :: l => a.key < b.key && keysStrictlyAscending (b :: l)
   | _ => true
 
-/-- serialization.rs:157 `deserialize_from_impl` plus the validation of `deserialize_from`.
-    `chk = true`: `deserialize_from`; `chk = false`: `deserialize_unchecked_from` (under `dbg` the
-    "unchecked" constructors validate and panic).  Returns the value and the unread rest. -/
-def deserialize (chk dbg : Bool) (bs : List Nat) : Except DecErr (Bitmap × List Nat) :=
-  match readN 4 bs with
-  | .error e => .error e
-  | .ok (cb, bs) =>
-    let cookie := leVal cb
-    let hdr : Except DecErr ((Nat × Bool × Bool) × List Nat) :=
-      if cookie = 12346 then
-        match readN 4 bs with
-        | .error e => .error e
-        | .ok (sb, bs) => .ok ((leVal sb, true, false), bs)
+/-- the header of a stream: `(size, has_offsets, run bitmap)`, then the description bytes and (if present)
+    the offset bytes.  serialization.rs:183-217 and ops_with_serialized.rs:70-106 (identical code). -/
+structure Header where
+  size : Nat
+  hasOffsets : Bool
+  runBitmap : Option (List Nat)
+  descr : List (Nat × Nat)        -- (key, cardinality - 1)
+  offsets : List Nat              -- empty when `hasOffsets = false`
+
+def decodeHeader {σ : Type} (R : Nat → Parser σ (List Nat)) : Parser σ Header := do
+  let cb ← R 4
+  let cookie := leVal cb
+  -- serialization.rs:185-192
+  let (size, hasOffsets, hasRun) ←
+    (if cookie = 12346 then do
+        let sb ← R 4
+        pure (leVal sb, true, false)
       else if cookie % 65536 = 12347 then
         let size := cookie / 65536 + 1
-        .ok ((size, decide (size ≥ 4), true), bs)
-      else .error .unknownCookie
-    match hdr with
-    | .error e => .error e
-    | .ok ((size, hasOffsets, hasRun), bs) =>
-      let rb : Except DecErr (Option (List Nat) × List Nat) :=
-        if hasRun then
-          match readN ((size + 7) / 8) bs with
-          | .error e => .error e
-          | .ok (bm, bs) => .ok (some bm, bs)
-        else .ok (none, bs)
-      match rb with
-      | .error e => .error e
-      | .ok (runBitmap, bs) =>
-        if size > 65536 then .error .sizeTooBig
-        else match readN (size * 4) bs with
-          | .error e => .error e
-          | .ok (db, bs) =>
-            let skip : Except DecErr (List Nat) :=
-              if hasOffsets then
-                match readN (size * 4) bs with
-                | .error e => .error e
-                | .ok (_, bs) => .ok bs
-              else .ok bs
-            match skip with
-            | .error e => .error e
-            | .ok bs =>
-              match decodeContainers chk dbg runBitmap (pairs (leWords 2 db)) 0 bs with
-              | .error e => .error e
-              | .ok (cs, bs) =>
-                if chk then
-                  if cs.any Container.isEmpty then .error .invalidData
-                  else if !keysStrictlyAscending cs then .error .invalidData
-                  else .ok (cs, bs)
-                else .ok (cs, bs)
+        pure (size, decide (size ≥ 4), true)
+      else Parser.fail .unknownCookie : Parser σ (Nat × Bool × Bool))
+  -- serialization.rs:196-202
+  let runBitmap ← (if hasRun then do
+        let bm ← R ((size + 7) / 8)
+        pure (some bm)
+      else pure none : Parser σ (Option (List Nat)))
+  -- serialization.rs:204
+  if size > 65536 then Parser.fail .sizeTooBig else
+  -- serialization.rs:209-217
+  let db ← R (size * 4)
+  let ob ← (if hasOffsets then R (size * 4) else pure [] : Parser σ (List Nat))
+  pure { size, hasOffsets, runBitmap, descr := pairs (leWords 2 db), offsets := leWords 4 ob }
+
+/-- serialization.rs:170 `deserialize_from_impl` plus the validation of `deserialize_from` (126-141),
+    over any reader.  `chk = true`: `deserialize_from`; `chk = false`: `deserialize_unchecked_from`
+    (under `dbg` the "unchecked" constructors validate and panic). -/
+def deserializeG {σ : Type} (R : Nat → Parser σ (List Nat)) (chk dbg : Bool) : Parser σ Bitmap := do
+  let h ← decodeHeader R
+  let cs ← decodeContainers R chk dbg h.runBitmap h.descr 0
+  if chk then
+    -- serialization.rs:133-138 (fix 46a4959)
+    if cs.any Container.isEmpty then Parser.fail .invalidData
+    else if !keysStrictlyAscending cs then Parser.fail .invalidData
+    else pure cs
+  else pure cs
+
+/-- decoding from a byte slice; returns the value and the unread rest -/
+def deserialize (chk dbg : Bool) (bs : List Nat) : Except DecErr (Bitmap × List Nat) :=
+  deserializeG readN chk dbg bs
 
 /-! ## `statistics()` -/
 
